@@ -64,9 +64,9 @@ Definition windex (s : sim) (wi : Z) : res (nat * warrior) :=
        | None => Panic
        end.
 
-(* GetWarrior: nil (None) when wi > count *)
+(* GetWarrior: nil (None) when wi < 0 || wi >= count *)
 Definition get_warrior (s : sim) (wi : Z) : res (option (nat * warrior)) :=
-  if (wcount s <? wi)%Z then Ok None
+  if ((wi <? 0) || (wcount s <=? wi))%Z then Ok None
   else match windex s wi with Ok x => Ok (Some x) | Panic => Panic end.
 
 Fixpoint load_code (m : N) (c : core) (off : N) (i : N) (code : list instr) : core :=
@@ -77,7 +77,7 @@ Fixpoint load_code (m : N) (c : core) (off : N) (i : N) (code : list instr) : co
 
 (* spawnWarrior: Ok (inl s') on success, Ok (inr tt) on a returned error *)
 Definition spawn_warrior (s : sim) (wi : Z) (off : N) : res (sim * list report + unit) :=
-  if (wcount s <? wi)%Z then Ok (inr tt)
+  if ((wi <? 0) || (wcount s <=? wi))%Z then Ok (inr tt)
   else match windex s wi with
        | Panic => Panic
        | Ok (i, w) =>
@@ -85,11 +85,11 @@ Definition spawn_warrior (s : sim) (wi : Z) (off : N) : res (sim * list report +
          | WAlive => Ok (inr tt)
          | _ =>
            let c := load_code (s_m s) (s_mem s) off 0 (w_code w) in
-           let q := rq_push (rq_new (s_procs s)) (add64 off (z2u64 (w_start w))) in
+           let q := rq_push (rq_new (s_procs s)) ((add64 off (z2u64 (w_start w))) mod s_m s) in
            let w' := mkW (w_code w) (w_start w) WAlive (Some q) in
            let s1 := set_w (with_mem s c) i w' in
            Ok (inl (with_living s1 (s_living s + 1)%Z,
-                    [mkR WarriorSpawn 0 (Z.of_nat i) off]))
+                    [mkR WarriorSpawn 0 (Z.of_nat i) (off mod s_m s)]))
          end
        end.
 
@@ -139,6 +139,7 @@ Fixpoint cycle_loop (k : nat) (i : nat) (s : sim) (reps : list report)
 (* RunCycle: new state, return value, reports *)
 Definition run_cycle (s : sim) : res (sim * Z * list report) :=
   if ((s_cycles s <=? s_cycle s) || (s_living s <? 1)%Z)%bool then Ok (s, 0%Z, [])
+  else if ((1 <? wcount s)%Z && (s_living s <? 2)%Z)%bool then Ok (s, 0%Z, [])
   else
     let cyc := Z.of_N (s_cycle s) in
     match cycle_loop (length (s_ws s)) 0 s [mkR CycleStart cyc 0 0] with
@@ -162,7 +163,7 @@ Fixpoint run_loop (fuel : nat) (s : sim) : run_res :=
          | Panic => RunPanic
          | Ok (s', a, _) =>
            let n := length (s_ws s) in
-           if (((n =? 1)%nat && (a =? 0)%Z) || ((1 <? n)%nat && (a =? 1)%Z))%bool
+           if ((a =? 0)%Z || ((1 <? n)%nat && (a =? 1)%Z))%bool
            then RunOk s' (Some (map alive (s_ws s')))
            else run_loop f s'
          end
@@ -183,10 +184,10 @@ Definition reset (s : sim) : sim * list report :=
 (* ---------- warrior.go queries ---------- *)
 Definition w_queue (w : warrior) : list N :=
   match w_pq w with None => [] | Some q => rq_values q end.
-(* NextPC: Panic on a nil queue, Ok None for the error return *)
+(* NextPC: Ok None for the error return (also for a nil queue) *)
 Definition w_next_pc (w : warrior) : res (option N) :=
   match w_pq w with
-  | None => Panic
+  | None => Ok None
   | Some q => if q_len q =? 0 then Ok None
               else Ok (Some (arr_get (q_arr q) ((q_start q + 0) mod q_size q)))
   end.
